@@ -153,13 +153,21 @@ impl Tokenizer
 		self.tokenized_program = Vec::new();
 		let mut parser = tree_sitter::Parser::new();
 		parser.set_language(&tree_sitter_integerbasic::language()).expect("error loading integer grammar");
+		let mut line_count = 0;
 		for line in program.lines() {
 			if line.trim().len()==0 {
 				continue;
 			}
-			self.line = String::from(line) + "\n";
+			// trailing blanks carry no meaning, and the grammar reads `THEN REM text ` with one as a variable
+			self.line = String::from(line.trim_end()) + "\n";
 			self.tokenize_line(&mut parser)?;
 			self.tokenized_program.append(&mut self.tokenized_line);
+			line_count += 1;
+			// the detokenizer stops after `max_lines` lines
+			if line_count > self.config.detokenizer.max_lines {
+				error!("too many lines");
+				return Err(Box::new(lang::Error::Syntax));
+			}
 		}
 		Ok(self.tokenized_program.clone())
 	}
